@@ -171,6 +171,43 @@ func templates() []tmpl {
 			return nil
 		})
 	}
+	// spends the 10 000-coin ladder output with a fee one hour below the pool's requirement (ceil(hours/20)): soft-invalid when it
+	// arrives, fully valid one block later (the output earns 10 000 hours per hour against its 1000) - a pool entry whose validity
+	// flag, written at arrival, is stale
+	add("ladder-4-underpaid", func(m *ledger.Model) *coin.Transaction {
+		for _, ux := range m.OutputsOf(idU.Addr) {
+			if ux.Body.Coins != 10000e6 {
+				continue
+			}
+			avail, ok := accruedU64(m, ux)
+			if !ok || avail < 40 || avail > 5000 {
+				return nil // only while the output is young: later the same shape is simply valid
+			}
+			fee := (avail+19)/20 - 1
+			return build([]coin.UxOut{ux}, []cipher.SecKey{idU.Sec}, []outSpec{{idC.Addr, 10000e6, avail - fee}})
+		}
+		return nil
+	})
+	// one transaction creating 200 outputs (7.6 KB, valid): a block that creates far more outputs than any other in the alphabet
+	add("fanout-200-G", func(m *ledger.Model) *coin.Transaction {
+		ux := firstOut(m, idG, 0)
+		if ux == nil || ux.Body.Coins < 100000e6 {
+			return nil
+		}
+		avail, ok := accruedU64(m, *ux)
+		if !ok || avail < 1000 || avail > 1<<62 {
+			return nil
+		}
+		outs := make([]outSpec, 0, 200)
+		var sum uint64
+		for i := uint64(0); i < 199; i++ {
+			c := (i + 1) * 1e6
+			outs = append(outs, outSpec{idC.Addr, c, i})
+			sum += c
+		}
+		outs = append(outs, outSpec{idG.Addr, ux.Body.Coins - sum, avail / 4})
+		return build([]coin.UxOut{*ux}, []cipher.SecKey{idG.Sec}, outs)
+	})
 	// oversized transactions (901 outputs, > 32 KiB = the default size limit of every rule set): size is a SOFT rule and must be
 	// judged after the hard rules - an oversized transaction that also creates hours is refused outright, an oversized but
 	// otherwise valid one is kept (flagged invalid) when it comes from a peer
